@@ -2,7 +2,7 @@
    RosFormatter.split and the offside parser to the insertion sequence of Proofs/RosPaths.v. *)
 From Coq Require Import List String Ascii Bool Arith Lia.
 From Annet Require Import Base.Str Base.Tree Model.Offside Spec.P_C05 Proofs.OffsideProofs
-                          Gen.Src_vendors Model.Join Spec.P_C04 Proofs.JoinProofs Proofs.RosPaths.
+                          Gen.Src_vendors Model.Join Spec.P_C04 Proofs.JoinProofs Proofs.RosPaths Proofs.CiscoProofs.
 Import ListNotations.
 Open Scope string_scope.
 Open Scope list_scope.
@@ -768,7 +768,18 @@ Theorem family_roundtrip_all fm ind f :
   wf_C04_family fm ind f = true -> guard_C04_family fm f = true ->
   exists text, run_family fm ind f = ORound text (Ok f) (Some text).
 Proof.
-  intros W G. destruct fm as [sk|b p w|bb]; try (apply family_roundtrip; [exact I|exact W|exact G]).
+  intros W G. destruct fm as [sk|b p w|bb].
+  - (* plain: the Cisco guard is a disjunction *)
+    assert (Simple : all_rows (plain_guard_row sk) f = true -> exists text, run_family (FPlain sk) ind f = ORound text (Ok f) (Some text)).
+    { intros S. apply family_roundtrip; [exact I|exact W|exact S]. }
+    destruct sk as [| |ws|ws|bexit tbl]; try (apply Simple; unfold wf_C04_family in W; apply andb_true_iff in W as [_ W];
+      apply andb_true_iff in W as [W _]; eapply all_rows_impl; [|exact W]; reflexivity).
+    cbn [guard_C04_family] in G. apply orb_true_iff in G as [G|G]; [apply Simple; exact G|].
+    unfold wf_C04_family in W. apply andb_true_iff in W as [W Wf]. apply andb_true_iff in W as [Wi Wt].
+    apply wfb_wf in Wt. apply andb_true_iff in Wf as [Wr _].
+    exists (join_plain ind f). apply roundtrip_intro; [reflexivity|]. apply parse_cisco_closed; assumption.
+  - apply family_roundtrip; [exact I|exact W|reflexivity].
+  - 
   unfold wf_C04_family in W. apply andb_true_iff in W as [W Wf]. apply andb_true_iff in W as [Wi Wt].
   apply wfb_wf in Wt. apply andb_true_iff in Wf as [Wb Wr]. apply String.eqb_eq in Wb. subst bb.
   assert (J : join_ros ros_section_ctx ros_final_flush "/" ind f = join_ros RosCtxSelf ros_final_flush "/" ind f).
